@@ -265,8 +265,8 @@ def _builder_of(fn, op, builders, hops=0):
                 e["k"] == "field" and str(e.get("adt", "")).startswith("closure:") for e in op_place(payload["op"])["proj"]):
             # `&mut xml` captured by a closure that was inlined here
             tgt = _ref_target(fn, n)
-            if tgt is not None and tgt["local"] in builders and all(e["k"] == "deref" for e in tgt["proj"]):
-                return tgt["local"]
+            if tgt is not None and find(tgt["local"]) in builders and all(e["k"] == "deref" for e in tgt["proj"]):
+                return find(tgt["local"])
             return None
         if kind == "stmt":
             if payload["k"] == "ref":
